@@ -177,3 +177,67 @@ Proof.
   - eexists; reflexivity.
   - eexists; reflexivity.
 Qed.
+
+(* ---------- ErtermEnc ---------- *)
+Lemma broken_erterm_loop : forall fuel k e, broken e -> broken (snd (enc_erterm_loop fuel k e)).
+Proof.
+  induction fuel as [|f IH]; intros k e H; cbn [enc_erterm_loop]; [exact H|].
+  destruct (0 <? k); [|exact H]. apply IH. apply broken_byteout.
+  apply (broken_regs e). exact H.
+Qed.
+
+Lemma broken_erterm : forall e, broken e -> broken (enc_erterm e).
+Proof.
+  intros e H. unfold enc_erterm.
+  pose proof (broken_erterm_loop 4 (11 - e_ct e + 1) e H) as H1.
+  destruct (e_post (snd (enc_erterm_loop 4 (11 - e_ct e + 1) e))) as [|last rest]; [exact H1|].
+  destruct (last =? 255); [exact H1|apply broken_byteout; exact H1].
+Qed.
+
+Lemma sim_erterm_loop : forall h P fuel k ef er, h <> 255 -> 0 <= h < 256 -> shift_sim h P ef er ->
+  shift_sim h P (snd (enc_erterm_loop fuel k ef)) (snd (enc_erterm_loop fuel k er)).
+Proof.
+  intros h P fuel. induction fuel as [|f IH]; intros k ef er Hh Hhb Hs; cbn [enc_erterm_loop]; [exact Hs|].
+  destruct (0 <? k); [|exact Hs].
+  destruct (sim_is_broken_or_regs _ _ _ _ Hs) as [Hb|(Ea & Ec & Ect & Ecx)].
+  { apply SSb. apply broken_erterm_loop. apply broken_byteout. apply (broken_regs ef). exact Hb. }
+  rewrite <- Ea, <- Ec, <- Ect, <- Ecx.
+  set (f1 := enc_byteout (mkEnc (e_a ef) (shl32 (e_c ef) (e_ct ef)) 0 (e_pre ef) (e_post ef) (e_cx ef))).
+  set (r1 := enc_byteout (mkEnc (e_a ef) (shl32 (e_c ef) (e_ct ef)) 0 (e_pre er) (e_post er) (e_cx ef))).
+  assert (S1 : shift_sim h P f1 r1) by (apply sim_byteout; [exact Hh|exact Hhb|apply sim_regs; exact Hs]).
+  destruct (sim_is_broken_or_regs _ _ _ _ S1) as [Hb|(_ & _ & Ect1 & _)].
+  - apply SSb. apply broken_erterm_loop. exact Hb.
+  - rewrite <- Ect1. apply IH; assumption.
+Qed.
+
+Lemma sim_erterm : forall h P ef er, h <> 255 -> 0 <= h < 256 -> shift_sim h P ef er ->
+  flushed_sim h P (enc_erterm ef) (enc_erterm er).
+Proof.
+  intros h P ef er Hh Hhb Hs.
+  destruct (sim_is_broken_or_regs _ _ _ _ Hs) as [Hb|(_ & _ & Ect & _)].
+  { left. apply broken_erterm. exact Hb. }
+  unfold enc_erterm. rewrite <- Ect.
+  pose proof (sim_erterm_loop h P 4 (11 - e_ct ef + 1) ef er Hh Hhb Hs) as S1.
+  set (f1 := snd (enc_erterm_loop 4 (11 - e_ct ef + 1) ef)) in *.
+  set (r1 := snd (enc_erterm_loop 4 (11 - e_ct ef + 1) er)) in *.
+  assert (Hfin : forall f r, shift_sim h P f r -> e_pre f <> [] -> flushed_sim h P f r).
+  { intros f r [_ Hf _ _ _|(_ & _ & _ & Ecx) (B & Ef & Er) _|Hb] Hne.
+    - congruence.
+    - right. split; [exact Ecx|]. exists B. auto.
+    - left. exact Hb. }
+  destruct S1 as [(Ea1 & Ec1 & Ect1 & Ecx1) Hf (sf & Epf) Hp (sr & Epr)|(Ea1 & Ec1 & Ect1 & Ecx1) (B & Ef & Er) (x & sf & sr & Epf & Epr)|Hb].
+  - (* no byte emitted by the loop: both sides emit their first byte now *)
+    rewrite Epf, Epr. change (0 =? 255) with false. cbv iota.
+    destruct (Z.eqb_spec h 255) as [|_]; [contradiction|].
+    apply Hfin.
+    + apply sim_byteout; [exact Hh|exact Hhb|].
+      apply SS0; auto; [repeat split; assumption|exists sf; exact Epf|exists sr; exact Epr].
+    + destruct (byteout_pushes f1) as [y Ey]. rewrite Ey. discriminate.
+  - rewrite Epf, Epr. destruct (x =? 255).
+    + right. split; [exact Ecx1|]. exists B. auto.
+    + apply Hfin.
+      * apply sim_byteout; [exact Hh|exact Hhb|].
+        apply SS1; [repeat split; assumption|exists B; auto|exists x, sf, sr; auto].
+      * destruct (byteout_pushes f1) as [y Ey]. rewrite Ey. discriminate.
+  - left. destruct (e_post f1) as [|last rest]; [exact Hb|]. destruct (last =? 255); [exact Hb|apply broken_byteout; exact Hb].
+Qed.
